@@ -491,12 +491,18 @@ def mask_span(m):
 # ---------------------------------------------------------------------------
 # solver stack for feasibility pruning (incremental, mirrors the path condition)
 # ---------------------------------------------------------------------------
+RLIMIT_PRUNE = 600000
+
+
 class _Inc:
     """incremental solver whose assertion stack mirrors a path condition"""
 
     def __init__(self, timeout_ms):
         self.s = z3.Solver()
-        self.s.set('timeout', timeout_ms)
+        # a deterministic resource limit decides (the same answer whatever the load of the machine: path enumeration by
+        # re-execution needs reproducible feasibility answers); the wall-clock limit is only a backstop
+        self.s.set('rlimit', RLIMIT_PRUNE)
+        self.s.set('timeout', max(timeout_ms, 5000))
         self.stack = []
         self.keep = []
 
